@@ -2,7 +2,8 @@
     Only statements; every proof is [exact <lemma>] or a short composition.
 
     Model: Deb/Model.v (the functions Deb/Check.v runs); reference: Deb/Spec.v;
-    proofs: Deb/Proofs.v, Deb/ProofsView.v, Deb/ProofsPacked.v.
+    proofs: Deb/Proofs.v, Deb/ProofsView.v, Deb/ProofsPacked.v; the bridge to the
+    correspondence check (theorem 7): Deb/CheckProofs.v.
 
     PARTIAL BY CONSTRUCTION (DESIGN §4 C07): the tar container and the gz/bz2/xz/lzma
     codecs are CPython's and are not modelled.  Everything below that speaks of the
@@ -14,7 +15,8 @@
     inputs. *)
 From Coq Require Import String Permutation.
 From Verif Require Import Lib.Base Lib.Dec Lib.PyStr Gen.DebConsts
-  Deb.Model Deb.Spec Deb.Proofs Deb.ProofsView Deb.ProofsPacked Deb.ProofsMore Deb.Payload.
+  Deb.Model Deb.Spec Deb.Proofs Deb.ProofsView Deb.ProofsPacked Deb.ProofsMore Deb.Payload
+  Deb.Check Deb.CheckProofs.
 
 (** 1. deb_accept_iff.  For every member list (any payloads, any order, any number
        of members): DebFile(...) succeeds iff 'debian-binary' is a member name and
@@ -207,6 +209,42 @@ Theorem C07_deb_returns_packed_assembled :
       /\ returns_packed P p_open deb pk.
 Proof. exact deb_returns_packed_assembled. Qed.
 
+(** 7. The bridge to the correspondence check (Deb/Check.v), at the instance of the
+       model's Section variables that Check.v runs ([payload], [pl_bytes], [pl_open]; the
+       tar/codec hypothesis of theorem 6 is met there by [arch _ v := PTar v], by
+       computation): for every case — every member list, expectation, query lists and
+       observation of both constructors, and the malformed literal [None] — an observation
+       that agrees with the model ([agree]) passes the property's judgement ([holds]).
+       Acceptance, the DebError-only rejection, the spelling clause on both parts and the
+       gate are forced by [agree] for all cases.  The unconditional statement is false on
+       one branch: an accepted package with an expectation [Some e], where [holds] compares
+       the observed fields / scripts / md5 map / files with [e] — a field of the case that
+       [agree] never reads — and the observed FIELDS are compared by [agree] only when the
+       control file could not be read (Deb822 is C02's).  [judged] is exactly that conjunct
+       ([returned_packed e dqs o], or the member list is not accepted; [true] on every other
+       case); it is the weakest side condition ([C07_judged_is_needed]). *)
+Theorem C07_agree_implies_holds :
+  forall c, judged c = true -> agree c = true -> holds c = true.
+Proof. exact agree_implies_holds. Qed.
+
+Theorem C07_judged_is_needed :
+  forall c, agree c = true -> judged c = false -> holds c = false.
+Proof. exact judged_is_needed. Qed.
+
+(** ... and what [judged] comes from.  Given a witness [pk] that the members the reader
+    selects are tar archives carrying [pk] ([packs]: theorem 6's hypotheses, decided),
+    an expectation that describes [pk] ([expect_of]: its scripts — distinct maintainer-script
+    names —, the map of its md5sums list, its data files — distinct, all queried) and
+    observed FIELDS equal to the expected ones ([fields_judged], the Deb822 part this model
+    does not contain): agreement gives the whole judgement — scripts, md5 map and every
+    data file under its three spellings by theorem 6. *)
+Theorem C07_agree_implies_holds_packed :
+  forall pk ms e cqs dqs obs,
+    packs pk ms = true -> expect_of pk e dqs = true -> fields_judged e obs = true ->
+    agree (Some (CDeb ms (Some e) cqs dqs obs)) = true ->
+    holds (Some (CDeb ms (Some e) cqs dqs obs)) = true.
+Proof. exact agree_implies_holds_packed. Qed.
+
 (** * Non-vacuity *)
 Local Open Scope string_scope.
 Definition s (x : String.string) : str := Lib.Dec.dec x.
@@ -300,6 +338,32 @@ Proof.
   vm_compute. repeat split.
 Qed.
 
+(** the bridge on that package: the witness, the expectation and the observation satisfy
+    every hypothesis of 7; with a foreign expectation the case still agrees but does not
+    hold (the unconditional statement fails) *)
+Definition ex_fields : pairs := [(s "Package", s "foo"); (s "Version", s "1.0")].
+Definition ex_exp : expect :=
+  mkExp ex_fields (pk_scripts ex_pk) (md5_dict ex_md5) (pk_files ex_pk).
+Definition ex_cqs : list str := [s "control"; s "postinst"; s "absent"].
+Definition ex_dqs : list str := [s "usr/share/doc/a b  c.txt"; s "etc/trailing "; s "usr"; s "absent"].
+Definition ex_obs : result obsrec :=
+  match deb_init payload pl_bytes ex_ms with
+  | Ok d => Ok (mkObs (s "2.0") (Ok (pk_control ex_pk)) (Ok ex_fields)
+                      (Ok [(s "postinst", s "#!/bin/sh\00000a"); (s "config", [])])
+                      (Ok [(s "usr/share/doc/a b  c.txt", s "0cc175b9c0f1b6a831c399e269772661");
+                           (s "etc/trailing ", s "900150983cd24fb0d6963f7d28e17f72")])
+                      (run_queries (d_control d) ex_cqs) (run_queries (d_data d) ex_dqs))
+  | Err e => Err e
+  end.
+
+Example C07_agree_implies_holds_nonvacuous :
+  let c := Some (CDeb ex_ms (Some ex_exp) ex_cqs ex_dqs ex_obs) in
+  let c' := Some (CDeb ex_ms (Some (mkExp ex_fields [] (md5_dict ex_md5) (pk_files ex_pk))) ex_cqs ex_dqs ex_obs) in
+  packs ex_pk ex_ms = true /\ expect_of ex_pk ex_exp ex_dqs = true /\ fields_judged ex_exp ex_obs = true
+  /\ judged c = true /\ agree c = true /\ holds c = true
+  /\ judged c' = false /\ agree c' = true /\ holds c' = false.
+Proof. vm_compute. repeat split. Qed.
+
 Print Assumptions C07_deb_accept_iff.
 Print Assumptions C07_deb_accept_spec.
 Print Assumptions C07_reject_is_deberror.
@@ -320,3 +384,6 @@ Print Assumptions C07_same_map_refl.
 Print Assumptions C07_control_bytes.
 Print Assumptions C07_deb_returns_packed.
 Print Assumptions C07_deb_returns_packed_assembled.
+Print Assumptions C07_agree_implies_holds.
+Print Assumptions C07_judged_is_needed.
+Print Assumptions C07_agree_implies_holds_packed.
